@@ -419,6 +419,6 @@ def nontrivial(c):
 
 
 PARTS = [
-    Part("export", strategy=case, oracle=oracle, nontrivial=nontrivial, n={"quick": 3000, "thorough": 40000},
+    Part("export", strategy=case, oracle=oracle, nontrivial=nontrivial, n={"quick": 6000, "thorough": 40000},
          sample=lambda c: {"alg": c["alg"], "mode": c["mode"], "gkf": nm.gkf_text(c["net"])[:1200]}),
 ]
